@@ -441,17 +441,26 @@ def ensure_template():
 class SeededUUID:
     UUID = _uuid_mod.UUID
 
-    def __init__(self, seed):
+    def __init__(self, seed, mode=None):
         self.r = _random.Random(seed)
+        self.mode = mode
+        self.fixed = self.r.getrandbits(128)
 
     def uuid4(self):
-        return _uuid_mod.UUID(int=self.r.getrandbits(128), version=4)
+        x = self.r.getrandbits(128)
+        if self.mode == "shared_prefix":
+            # any values: identifiers that agree in their first 48 bits (all drawn in one burst from a time-based
+            # source would) and differ further down
+            x = (self.fixed >> 80 << 80) | (x & ((1 << 80) - 1))
+        elif self.mode == "shared_suffix":
+            x = (x >> 48 << 48) | (self.fixed & ((1 << 48) - 1))
+        return _uuid_mod.UUID(int=x, version=4)
 
 
-def set_uuid_stream(seed):
+def set_uuid_stream(seed, mode=None):
     import_repo()
     import eudoxia.utils.dag as dag
-    dag.uuid = _uuid_mod if seed is None else SeededUUID(seed)
+    dag.uuid = _uuid_mod if seed is None else SeededUUID(seed, mode)
 
 
 # ---------------------------------------------------------------------------
@@ -498,7 +507,7 @@ def run(scn, oracles=(), workload_factory=None, keep_rounds=True):
     ids = scn.get("ids") or {}
     Container.next_container_num = ids.get("container_offset", 1)
     if "uuid_seed" in ids:
-        set_uuid_stream(ids["uuid_seed"])
+        set_uuid_stream(ids["uuid_seed"], ids.get("uuid_mode"))
     out = {"violation": None, "discard": None, "faults": {}, "probes": {}, "ticks": 0, "sig": None,
            "nontrivial": False, "ended_by": "end"}
     stats = None
